@@ -40,7 +40,7 @@ def life_cycle(rng, sid, small):
     if api == "setavail":
         sub = sorted(sub)
     return gen.decode_exec(p, sub, api=api, finish=rng.choice([True, True, False]), cb=rng.choice([None, "buf", "null", "mix"]),
-                           probe=rng.choice(["each", "end"]), s=sid, both=rng.random() < 0.1)
+                           probe=rng.choice(["each", "end"]), s=sid, **({"both": True, "builds_before": rng.choice([0, 1, p.r])} if rng.random() < 0.1 else {}))
 
 
 def interleave(rng, seqs):
